@@ -62,7 +62,8 @@ TRUSTED_BASE = [
     "oracle hypotheses of C15_roundtrip_partial (explicit premises of the theorem): "
     "np.float64('{:.16e}'.format(v)) == v and the printed coordinate is a non-empty token "
     "without blank, '=', '[' or ']'; int('{:08d}'.format(n)) == n and the printed integer is "
-    "non-empty ASCII digits. Checked on every generated coordinate/identifier through the "
+    "non-empty ASCII digits (proved for the model's own decimal functions dec8/parse_int_c: "
+    "C15_roundtrip_decimal). Checked on every generated coordinate/identifier through the "
     "implementation (bit-exact reload), not proved about CPython/numpy",
     "the executable instance of the persistence model used in the correspondence writes "
     "coordinates as decimal integers (cases with integer-valued coordinates; the real text "
